@@ -643,7 +643,7 @@ def run(chk):
         handle_broken(chk)
 
     max_ops = 5 if quick else 10
-    n = 1000 if quick else 15000
+    n = 1000 if quick else 6000
     # fixed regression cases first: the defects repaired by `fix:` commits (their witnesses)
     fixed = corpus_cases()
     cases = fixed + [gen_case(rng, max_ops) for _ in range(n)]
